@@ -4,6 +4,7 @@ from __future__ import annotations
 
 import core
 import gen_program
+import impl
 import pipeline
 
 ORACLES = {"C02": pipeline.oracle_c02, "C03": pipeline.oracle_c03, "C05": pipeline.oracle_c05, "C07": pipeline.oracle_c07}
@@ -84,7 +85,60 @@ def c02_streams(run, tier, seed):
         run.correspond(s, pr, r, m)
         pipeline.oracle_c02(run, s, pr, r)
     s.sample({"src": progs[0]["src"]})
-    return [s]
+    return [s, c02_program_reuse(run, tier, seed)]
+
+
+def c02_program_reuse(run, tier, seed):
+    """one Program object, two sources one after the other: the labels of the second are those of a fresh Program"""
+    import os
+    from a816.program import Program
+    rng = core.rng_for(seed, "c02-reuse")
+    s = core.Stream("S4-program-reuse-labels", "a Program that has assembled one source assembles a second one that defines the same names (labels, an .incbin of the same file, a named scope, a block-local label) at other addresses: the second output -- the bytes, and the label / .incbin start and size values written with .dl -- equals that of a fresh Program, and every value is the address where the byte after the definition was placed; non-trivial = distinct (sizes, banks)")
+    blob = bytes(rng.randrange(256) for _ in range(rng.randrange(1, 40)))
+    with open(os.path.join(run.tmp, "blob_zq.bin"), "wb") as fh:
+        fh.write(blob)
+
+    def source(bank, n, m):
+        pad = ", ".join(str(rng.randrange(256)) for _ in range(n))
+        return (f"*=0x{bank:02x}8000\n.db {pad}\n.incbin 'blob_zq.bin'\nafter_zq:\n.scope sc_zq {{\n.db {m}\nin_zq:\n}}\n"
+                f"{{\nloc_zq:\n.dw loc_zq\n}}\n.dl blob_zq_bin, blob_zq_bin__size, after_zq, sc_zq.in_zq\n"), n
+
+    def assemble(prog, src):
+        w = impl.CollectWriter()
+        cwd = os.getcwd()
+        os.chdir(run.tmp)
+        try:
+            with impl.quiet(), core.watchdog(20):
+                try:
+                    err = prog.assemble_string_with_emitter(src, "reuse.s", w)
+                except Exception as e:  # noqa: BLE001
+                    return ("raised", type(e).__name__, str(e)[:120])
+        finally:
+            os.chdir(cwd)
+        return ("error", err[:120]) if err is not None else list(w.blocks)
+    for i in range(16 if tier == "quick" else 160):
+        (a_src, _), (b_src, nb) = source(rng.randrange(0, 4), rng.randrange(1, 20), rng.randrange(256)), source(rng.randrange(0, 4), rng.randrange(1, 20), rng.randrange(256))
+        prog = Program()
+        first = assemble(prog, a_src)
+        if not isinstance(first, list):
+            s.count("first-source-failed:no-claim")
+            continue
+        again = assemble(prog, b_src)
+        fresh = assemble(Program(), b_src)
+        s.cases += 1
+        s.nontrivial.add((len(blob), nb, b_src[:12]))
+        s.count("reused")
+        inp = {"first": a_src, "second": b_src, "blob_zq.bin": blob.hex()}
+        base = int(b_src[4:10], 16)
+        start = base + nb
+        after = start + len(blob)
+        want_tail = b"".join(v.to_bytes(3, "little") for v in (start, len(blob), after, after + 1))
+        if not isinstance(fresh, list) or not b"".join(b for _, b in fresh).endswith(want_tail):
+            s.violate(inp, want_tail.hex(), str(fresh)[:200], "the .incbin start / size symbols, the label after it and the exported scope label do not evaluate to the addresses where the bytes were placed")
+        elif again != fresh:
+            s.violate(inp, str(fresh)[:200], str(again)[:200], "a Program that has assembled another source before gives the second source other label values / bytes than a fresh Program")
+    s.sample({"second": source(1, 3, 7)[0]})
+    return s
 
 
 # ------------------------------------------------------------------------------------------------ C03
@@ -139,7 +193,35 @@ def c03_streams(run, tier, seed):
                     bins[name] = bytes([rng.randrange(256)]) * ln
                     lines.append(f".incbin '{name}'")
                     run_at = None
-        progs.append(raw(rom, "\n".join(lines) + "\n", bins=bins))
+        if i % 3 == 1:
+            # the same IPS file brought in several times with different deltas (directly, and through a macro applied
+            # twice): every inclusion places the file's records at offset + its own delta
+            recs = []
+            for _ in range(rng.randrange(1, 4)):
+                off = rng.randrange(0, 0x7000)
+                if rng.random() < 0.3:
+                    recs.append(off.to_bytes(3, "big") + b"\x00\x00" + rng.randrange(1, 40).to_bytes(2, "big") + bytes([rng.randrange(256)]))
+                else:
+                    data = bytes(rng.randrange(256) for _ in range(rng.randrange(1, 12)))
+                    recs.append(off.to_bytes(3, "big") + len(data).to_bytes(2, "big") + data)
+            bins["p_zq.ips"] = b"PATCH" + b"".join(recs) + b"EOF"
+            deltas = rng.sample([0, 0x10, 0x200, 0x8000, 0x10000, 0x12345, 0x20000], 3)
+            pos = sorted(rng.sample(range(1, len(lines) + 1), min(2, len(lines))))
+            for j, at in enumerate(reversed(pos)):
+                lines.insert(at, f".include_ips 'p_zq.ips', 0x{deltas[j]:x}")
+            if i % 2 == 1:
+                lines.insert(0, ".macro ipz_zq(d_zq) {\n.include_ips 'p_zq.ips', d_zq\n}")
+                lines.append(f"ipz_zq(0x{deltas[2]:x})\nipz_zq(0x{deltas[0] + 0x40:x})")
+            s.count("same-ips-file-several-deltas")
+            used = [deltas[j] for j in range(len(pos))] + ([deltas[2], deltas[0] + 0x40] if i % 2 == 1 else [])
+            plain = []
+            for rec in recs:
+                off, ln = int.from_bytes(rec[:3], "big"), int.from_bytes(rec[3:5], "big")
+                plain.append((off, rec[5:5 + ln] if ln else rec[7:8] * int.from_bytes(rec[5:7], "big")))
+            ips_expect = [(off + d, data) for d in used for off, data in plain]
+        else:
+            ips_expect = None
+        progs.append(raw(rom, "\n".join(lines) + "\n", bins=bins, ips_expect=ips_expect))
     for pr, r, m in run.run(progs):
         s.cases += 1
         s.count(stat_key(pr, r))
@@ -147,6 +229,12 @@ def c03_streams(run, tier, seed):
         run.correspond(s, pr, r, m)
         pipeline.oracle_c03(run, s, pr, r)
         pipeline.oracle_c02(run, s, pr, r)
+        if pr.get("ips_expect") and r["status"] == "ok":
+            got = [(a, bytes(b)) for a, b in r["blocks"]]
+            missing = [(a, d.hex()) for a, d in pr["ips_expect"] if (a, d) not in got]
+            if missing:
+                s.violate({"src": pr["src"], "p_zq.ips": pr["bins"]["p_zq.ips"].hex()}, {"records written at offset + delta of each inclusion": [(a, d.hex()) for a, d in pr["ips_expect"]][:8]},
+                          {"not written": missing[:6]}, "an IPS file included several times with different deltas: some inclusion's records are not placed at their offset plus that inclusion's delta")
     s.sample({"rom": progs[0]["rom"], "src": progs[0]["src"][:300]})
     return [s, c03_ram_sections(run, tier, seed), c03_positions_in_bodies(run, tier, seed)]
 
